@@ -516,6 +516,13 @@ def r44(e: Engine, rep: Report, rule: str = 'R4.4'):
     for k, v in common.class_constants(e, OPS).items():
         if ('self.' + k) in src or ('cls.' + k) in src:
             src += ' %r' % (v,)
+    # ... and module-level ones (_ENV_SUFFIX = '.env')
+    for x in ast.walk(ctx.func.node):
+        if isinstance(x, ast.Name) and isinstance(x.ctx, ast.Load) and \
+                x.id not in ctx.func.params:
+            mv = common.module_const(ctx.func.module, x.id)
+            if isinstance(mv, (str, bytes)):
+                src += ' %r' % (mv,)
     rep.evaluations += 1
     rep.check("'.env'" in src and 'env_dir' in src and 'listdir' in src,
               rule,
